@@ -9,6 +9,8 @@ CHECKS['C03'] = dict(text='Bounded symbolic execution (z3) of the MIR of execute
              note='run_proc is stubbed (arbitrary status); operator sequences are enumerated, statuses are solver variables; main.rs exit wiring only via the binary replay.', design='6/C03')
 CHECKS['C05'] = dict(text='Bounded symbolic execution (z3) of the MIR of the whole path a line takes up to the first process creation (run_command_line, line_to_cmds, run_proc, from_line with every expansion pass, run_pipeline planning incl. try_run_func / calculator classification) and of the pre-passes (trim_multiline_prompts, extend_bangbang, scripting::expand_args, is_arithmetic), the highlighter and escaped_word_start, for every line of <= n fully symbolic characters (quick: 3 for the command path and highlighter, 4 for escaped_word_start; thorough: +1). Every panic site reachable under the path condition is reported with the crashing line; loops whose state repeats are reported as hangs; both only after the native binary / hook reproduces them.',
              note='Paths end at pipe()/fork(), builtin bodies, the pest calculator parser and function bodies (other properties). Stubs: env::var, glob (pattern-respecting adversarial answer), command substitution output. Dev profile. A deterministic 1/8 share of the ok-leaves is validated against the native binary.', design='6/C05')
+CHECKS['C10'] = dict(text='Bounded symbolic execution (z3) of the MIR of shell::expand_env / env_in_token / expand_one_env for every token of <= 3 (thorough 4) segments over {literal, $A, ${A}, $AB, $B, ${B}, $?, $$, ${?}} with symbolic literal characters, symbolic variable values (<= 1, thorough 2 characters, arbitrary scalars) and quote tag; oracle: one left-to-right substitution pass, inserted text not rescanned; hangs via repeated-state detection.',
+             note='expand_env is driven directly; literal characters exclude quotes/backquote/backslash/parentheses/digits (other word kinds). Known finding: values containing `$` are rescanned (fix-point loop). Every stub-free ok-leaf is validated against the native expand_env.', design='6/C10')
 NA = {}
 ALL = ['C%02d' % i for i in range(1, 21)]
 m = dict(version=1, setup_cmd='./setup.sh',
